@@ -13,6 +13,7 @@ from harness import atoms as AT
 
 GEN = True
 THEOREMS = {
+    'RsomeV.Props.C06Model': ['RsomeV.C06Model.det_model_sound', 'RsomeV.C06Model.det_model_total', 'RsomeV.C06Model.det_model_cols', 'RsomeV.C06Model.det_vtype'],
     'RsomeV.Props.C06': ['RsomeV.C06.dispatch_total', 'RsomeV.C06.layers_found', 'RsomeV.C06.legacy_N_objective_dropped'],
     'RsomeV.Props.AtomsSoc': ['RsomeV.AtomsSoc.abs_sound', 'RsomeV.AtomsSoc.norm1_sound', 'RsomeV.AtomsSoc.norminf_sound', 'RsomeV.AtomsSoc.norm2_sound', 'RsomeV.AtomsSoc.square_sound', 'RsomeV.AtomsSoc.sumsqr_sound', 'RsomeV.AtomsSoc.rsocone_sound', 'RsomeV.AtomsSoc.foldBounds_spec', 'RsomeV.AtomsSoc.foldBounds_perm', 'RsomeV.AtomsSoc.foldBounds_feas'],
     'RsomeV.Props.AtomsExp': ['RsomeV.AExp.exp_sound', 'RsomeV.AExp.log_sound', 'RsomeV.AExp.pexp_sound', 'RsomeV.AExp.plog_sound', 'RsomeV.AExp.entropy_sound', 'RsomeV.AExp.softplus_sound', 'RsomeV.AExp.kl_sound', 'RsomeV.AExp.encodeAtoms_sound'],
@@ -142,6 +143,7 @@ def run(ctx):
     # correspondence: the Lean atom encoders vs the real do_math() on random single- and multi-atom models (exact)
     C.run_difftest(ctx, 'test_atoms_soc.py', ctx.n(150, 3000), 'atom encodings A/M/I/E/S/Q/rsocone, bound folding, vtype vector')
     C.run_difftest(ctx, 'test_atoms_exp.py', ctx.n(120, 2500), 'atom encodings X/L/P/F/pexp/plog/KL')
+    C.run_difftest(ctx, 'test_det_model.py', ctx.n(80, 1500), 'whole deterministic do_math(): several atoms, rows, bounds, vtypes, affine/atom objective')
     summed_forms(ctx)
     for k in range(ctx.n(300, 5000)):
         seed = int(ctx.rng.integers(2 ** 31))
